@@ -65,6 +65,10 @@ def run_shim(repo, relpath, do_grad):
         run.watch.append(to_poly(args[0]))
         return None
 
+    def backward(recv, args, kw):
+        run.events.append(("backward", to_poly(recv)))
+        return None
+
     jit_calls = []
 
     def jitted(name):
@@ -74,7 +78,7 @@ def run_shim(repo, relpath, do_grad):
         return f
 
     ext = {
-        "grad": grad, ".gradient": gradient, ".watch": watch, "GradientTape": lambda a, k: Obj("tape"),
+        "grad": grad, ".gradient": gradient, ".watch": watch, ".backward": backward, "GradientTape": lambda a, k: Obj("tape"),
         "_jitted_objective_and_grad": jitted("_jitted_objective_and_grad"), "_jitted_objective": jitted("_jitted_objective"),
     }
     env = {
